@@ -51,9 +51,9 @@ def Ctr.setMem (c : Ctr) (m : Nat) (cons : Int) : Ctr Ã— Int :=
 def segMem (cfg : Cfg) (sg : Seg) (io : Nat) (i : Nat) : Nat :=
   if i < io then (match sg.fixed with | some m => m | none => (i + 1) * cfg.g) else sg.peak
 
-/-- advance the generator to its next `yield` (`next(self._tick_iter)`) -/
-def advance (cfg : Cfg) (w : Store) (c : Ctr) (cons : Int) : Except Err (Store Ã— Ctr Ã— Int) :=
-  if c.frozen then .ok (w, c, cons) else
+/-- move the generator to the next position that has a tick to run, starting operators (â†’ RUNNING) on the way;
+    operators and segments with nothing (left) to run are stepped over -/
+def seek (w : Store) (cfg : Cfg) (c : Ctr) : Except Err (Store Ã— Ctr) :=
   match h : c.pos.ops with
   | [] => .error .stopIter
   | (r, allsegs) :: rest =>
@@ -61,33 +61,48 @@ def advance (cfg : Cfg) (w : Store) (c : Ctr) (cons : Int) : Except Err (Store Ã
       match w.transition r running with
       | .error e => .error e
       | .ok w' =>
-        let tbl := opTickTable cfg c.cpu allsegs
-        advance cfg w' { c with pos := { c.pos with started := true, segs := allsegs.zip tbl, i := 0, opDone := 0, opTotal := tickSum tbl } } cons
+        seek w' cfg { c with pos := { c.pos with started := true, segs := allsegs.zip (opTickTable cfg c.cpu allsegs), i := 0, opDone := 0,
+                                                   opTotal := tickSum (opTickTable cfg c.cpu allsegs) } }
     else match hsg : c.pos.segs with
-      | [] => advance cfg w { c with pos := { ops := rest, started := false, segs := [], i := 0, opDone := 0, opTotal := 0 } } cons
-      | (sg, io, cpuT) :: more =>
-        if c.pos.i < io + cpuT then
-          let (c1, cons1) := c.setMem (segMem cfg sg io c.pos.i) cons
-          if c1.mem > c1.ram then .ok (w, { c1 with frozen := true }, cons1)
-          else
-            let c2 := { c1 with canSuspend := false, pos := { c1.pos with i := c1.pos.i + 1, opDone := c1.pos.opDone + 1 } }
-            if c.pos.opDone + 1 == c.pos.opTotal then
-              match w.transition r completed with
-              | .error e => .error e
-              | .ok w' =>
-                let c3 := { c2 with curOpIdx := c2.curOpIdx + 1 }
-                if rest.isEmpty then
-                  let (c4, cons4) := { c3 with completed := true }.setMem 0 cons1
-                  .ok (w', c4, cons4)
-                else .ok (w', { c3 with canSuspend := true }, cons1)
-            else .ok (w, c2, cons1)
-        else advance cfg w { c with pos := { c.pos with segs := more, i := 0 } } cons
+      | [] => seek w cfg { c with pos := { ops := rest, started := false, segs := [], i := 0, opDone := 0, opTotal := 0 } }
+      | (_, io, cpuT) :: more =>
+        if c.pos.i < io + cpuT then .ok (w, c)
+        else seek w cfg { c with pos := { c.pos with segs := more, i := 0 } }
 termination_by (c.pos.ops.length, (if c.pos.started then 0 else 1), c.pos.segs.length)
 decreasing_by
   all_goals simp_wf
   Â· simp [h] at *; right; simp_all; exact Prod.Lex.left _ _ (by omega)
   Â· simp [h]; left; omega
   Â· simp [h, hsg] at *; right; simp_all; exact Prod.Lex.right _ (by omega)
+
+/-- one tick of operator `r` with memory demand `m` (`last` = no operator follows in this container) -/
+def runAt (w : Store) (c : Ctr) (cons : Int) (r : Nat) (last : Bool) (m : Nat) : Except Err (Store Ã— Ctr Ã— Int) :=
+  if m > c.ram then .ok (w, { c with mem := m, frozen := true }, cons + ((m : Int) - (c.mem : Int)))
+  else if c.pos.opDone + 1 == c.pos.opTotal then
+    match w.transition r completed with
+    | .error e => .error e
+    | .ok w' =>
+      if last then
+        .ok (w', { c with mem := 0, canSuspend := false, completed := true, curOpIdx := c.curOpIdx + 1,
+                          pos := { c.pos with i := c.pos.i + 1, opDone := c.pos.opDone + 1 } }, cons + ((m : Int) - (c.mem : Int)) + ((0 : Int) - (m : Int)))
+      else
+        .ok (w', { c with mem := m, canSuspend := true, curOpIdx := c.curOpIdx + 1,
+                          pos := { c.pos with i := c.pos.i + 1, opDone := c.pos.opDone + 1 } }, cons + ((m : Int) - (c.mem : Int)))
+  else .ok (w, { c with mem := m, canSuspend := false, pos := { c.pos with i := c.pos.i + 1, opDone := c.pos.opDone + 1 } },
+            cons + ((m : Int) - (c.mem : Int)))
+
+/-- run the tick at the current position (which `seek` has made runnable) -/
+def runTick (cfg : Cfg) (w : Store) (c : Ctr) (cons : Int) : Except Err (Store Ã— Ctr Ã— Int) :=
+  match c.pos.ops, c.pos.segs with
+  | (r, _) :: rest, (sg, io, _) :: _ => runAt w c cons r rest.isEmpty (segMem cfg sg io c.pos.i)
+  | _, _ => .error .stopIter
+
+/-- advance the generator to its next `yield` (`next(self._tick_iter)`) -/
+def advance (cfg : Cfg) (w : Store) (c : Ctr) (cons : Int) : Except Err (Store Ã— Ctr Ã— Int) :=
+  if c.frozen then .ok (w, c, cons) else
+  match seek w cfg c with
+  | .error e => .error e
+  | .ok (w1, c1) => runTick cfg w1 c1 cons
 
 /-- `Container.tick` -/
 def Ctr.tick (cfg : Cfg) (w : Store) (c : Ctr) (cons : Int) : Except Err (Store Ã— Ctr Ã— Int) :=
